@@ -29,6 +29,9 @@ pub enum PosSrc {
     Raw { yz: u32, xz: u32 },
     /// report the current true position again (same raw values as the last report of this parity)
     Same,
+    /// the last position report of this parity once more, bit for bit (same type code, altitude
+    /// code and CPR values: two receivers feeding one tracker, a replayed capture)
+    Again,
     /// latitude fields of an even / odd pair whose zone-index rounding is an exact tie
     /// (59 YZ0 - 60 YZ1 = -65536 (2t + 1)); the longitude field is that of the true position
     Tie { t: u8, k: u16 },
@@ -89,6 +92,7 @@ fn possrc_s() -> impl Strategy<Value = PosSrc> {
         2 => (bearing_s(), prop_oneof![Just(990u16), Just(1010), 0u16..1000, 1000u16..2000]).prop_map(|(bearing, permille)| PosSrc::AtRange { bearing, permille }),
         1 => (prop_oneof![4 => 0u32..131072, 1 => Just(0u32), 1 => Just(131071u32)], prop_oneof![4 => 0u32..131072, 1 => Just(0u32), 1 => Just(131071u32)]).prop_map(|(yz, xz)| PosSrc::Raw { yz, xz }),
         2 => Just(PosSrc::Same),
+        2 => Just(PosSrc::Again),
         1 => (0u8..6, 0u16..4).prop_map(|(t, k)| PosSrc::Tie { t, k }),
     ]
 }
@@ -161,6 +165,8 @@ pub struct World {
     pub range: f64,
     pub truth: Vec<(f64, f64)>,
     pub last_raw: Vec<[Option<(u32, u32)>; 2]>,
+    /// (type code, altitude code) of the last position report per aircraft and parity
+    pub last_meta: Vec<[Option<(u8, u16)>; 2]>,
 }
 
 impl World {
@@ -187,7 +193,7 @@ impl World {
                 t.0 = sign * (edge + steps * 360.0 / 60.0 / 131072.0 * 0.5).min(89.9);
             }
         }
-        World { rx, range, truth, last_raw: vec![[None, None]; s.start.len()] }
+        World { rx, range, truth, last_raw: vec![[None, None]; s.start.len()], last_meta: vec![[None, None]; s.start.len()] }
     }
 }
 
@@ -230,6 +236,11 @@ pub fn build(world: &mut World, op: &Op) -> Option<Built> {
                 }
                 Kind::Position { odd, tc, alt, src } => {
                     let parity = *odd as u32;
+                    let (tc_v, alt_v): (u8, u16) = match (src, world.last_meta[a][parity as usize]) {
+                        (PosSrc::Again, Some(m)) => m,
+                        _ => (*tc, *alt),
+                    };
+                    let (tc, alt) = (&tc_v, &alt_v);
                     let (yz, xz) = match src {
                         PosSrc::Flight { bearing, d_centinm } => {
                             world.truth[a] = refcpr::destination(world.truth[a], *bearing as f64, *d_centinm as f64 / 100.0 * 1.852);
@@ -261,7 +272,7 @@ pub fn build(world: &mut World, op: &Op) -> Option<Built> {
                                 (e.0, e.1)
                             }
                         }
-                        PosSrc::Same => match world.last_raw[a][parity as usize] {
+                        PosSrc::Same | PosSrc::Again => match world.last_raw[a][parity as usize] {
                             Some(r) => r,
                             None => {
                                 let e = refcpr::encode(world.truth[a].0, world.truth[a].1, parity);
@@ -270,6 +281,7 @@ pub fn build(world: &mut World, op: &Op) -> Option<Built> {
                         },
                     };
                     world.last_raw[a][parity as usize] = Some((yz, xz));
+                    world.last_meta[a][parity as usize] = Some((*tc, *alt));
                     set(&mut me, 1, 5, *tc as u64);
                     set(&mut me, 9, 12, *alt as u64);
                     set(&mut me, 22, 1, parity as u64);
@@ -919,7 +931,10 @@ fn invariants(planes: &Airplanes, model: &Model, fails: &mut Vec<Fail>) {
     }
     let ap = planes.all_position();
     if ap.len() != with_pos.len() || ap.iter().zip(with_pos.iter()).any(|(a, b)| a.0 != b.0 || a.1 != b.1) {
-        fails.push(("C14/all_position".into(), format!("all_position() = {:?}, records with a position: {:?}", ap.iter().map(|x| x.0.to_string()).collect::<Vec<_>>(), with_pos.iter().map(|x| x.0.to_string()).collect::<Vec<_>>())));
+        let m = format!("all_position() = {:?}, records with a position: {:?}", ap.iter().map(|x| x.0.to_string()).collect::<Vec<_>>(), with_pos.iter().map(|x| x.0.to_string()).collect::<Vec<_>>());
+        fails.push(("C14/all_position".into(), m.clone()));
+        // the position list is where positions are published to the clients: C13's "published"
+        fails.push(("C13/published_list".into(), m));
     }
     let lines = planes.to_string().lines().count();
     if lines != detail_lines {
@@ -948,6 +963,7 @@ fn op_json(o: &Op) -> Value {
                         PosSrc::AtRange { bearing, permille } => json!({"at_range": [bearing, permille]}),
                         PosSrc::Raw { yz, xz } => json!({"raw": [yz, xz]}),
                         PosSrc::Same => json!("same"),
+                        PosSrc::Again => json!("again"),
                         PosSrc::Tie { t, k } => json!({"tie": [t, k]}),
                     };
                     json!({"position": {"odd": odd, "tc": tc, "alt": alt, "src": s}})
@@ -988,6 +1004,8 @@ fn op_from(v: &Value) -> Option<Op> {
                 PosSrc::Raw { yz: u(&a[0]) as u32, xz: u(&a[1]) as u32 }
             } else if let Some(a) = s.get("tie").and_then(|x| x.as_array()) {
                 PosSrc::Tie { t: u(&a[0]) as u8, k: u(&a[1]) as u16 }
+            } else if s.as_str() == Some("again") {
+                PosSrc::Again
             } else {
                 PosSrc::Same
             };
